@@ -8,6 +8,7 @@ MC = {"quick": [("mc-ids", "MCLdapConn", "MCConn_c05_quick.cfg", 600, 8)],
 PROFILES = {"quick": [("plain", 150), ("mixed", 100)],
             "thorough": [("plain", 2000), ("mixed", 2000), ("timeouts", 1000)]}
 STRESS = {"quick": (4, 16, 40, 60), "thorough": (40, 16, 64, 400)}     # runs, threads, tasks, ops per task
+SCRIPTS = {"quick": ("GenConn_len4.cfg", 16), "thorough": ("GenConn_len5.cfg", 20)}
 RULE = ("model: UniqueIds / WireUnique / IdRange / Protected over every interleaving of two operations with the counter at 0 and next "
         "to the wrap point; the allocator law (probing = 'first free ID cyclically after last') for every (last, used) of a 6-ID space, "
         "each replayed into the real allocator next to 2^31-1; implementation: allocator events of all scenarios must obey the law with "
@@ -73,8 +74,7 @@ def extra(chk):
 
 
 def run(tier):
-    return L.run_lane("C05", tier, MC[tier], PROFILES[tier], RULE,
-                      [("alloc", L.corrupt_alloc, "alloc")], extra=extra,
+    return L.run_lane("C05", tier, MC[tier], PROFILES[tier], RULE, scripts=SCRIPTS[tier], selftests=[("alloc", L.corrupt_alloc, "alloc")], extra=extra,
                       assumptions=["the schedule quantifier over real threads is sampled by the stress lane, not exhausted"])
 
 
